@@ -315,3 +315,115 @@ reg(dict(
         "limits (max_receive, receive maximum, sizes) are kept out of the way in this group; C12 covers them",
         "the harness tokeniser (independent of the crate codec) reports the wire faithfully",
     ]), ["C03", "C04", "C11"])
+
+
+# =============================================================================================
+# group "pktseq": C16  (PktSeq.tla generator + ProtoMon.tla)
+
+PKTSEQ_CFG = """SPECIFICATION ExportSpec
+CONSTANTS
+  NT = {nt}
+  MaxLen = {maxlen}
+  MinLen = {minlen}
+CHECK_DEADLOCK FALSE
+"""
+
+
+def c16_templates(ver):
+    t = [
+        [{"t": "connect", "ka": 0}],
+        [{"t": "connack", "rc": 0}],
+        [{"t": "publish", "q": 0, "topic": "t", "plen": 2}],
+        [{"t": "publish", "q": 1, "id": 1, "topic": "t", "plen": 2}],
+        [{"t": "publish", "q": 1, "id": 2, "topic": "t", "plen": 0}],
+        [{"t": "publish", "q": 2, "id": 1, "topic": "t", "plen": 2}],
+        [{"t": "publish", "q": 2, "id": 2, "topic": "t", "plen": 2}],
+        [{"t": "publish", "q": 1, "id": 3, "topic": "t", "plen": 8, "send": 3}, {"t": "payload", "n": 5}],
+        [{"t": "publish", "q": 1, "id": 9, "topic": "t", "plen": 8, "send": 3}, {"t": "payload", "n": 5}],
+        [{"t": "puback", "id": 1}],
+        [{"t": "puback", "id": 2}],
+        [{"t": "pubrec", "id": 1}],
+        [{"t": "pubrel", "id": 1}],
+        [{"t": "pubrel", "id": 2}],
+        [{"t": "pubcomp", "id": 1}],
+        [{"t": "subscribe", "id": 1}],
+        [{"t": "suback", "id": 1}],
+        [{"t": "unsubscribe", "id": 1}],
+        [{"t": "unsuback", "id": 1}],
+        [{"t": "pingreq"}],
+        [{"t": "pingresp"}],
+        [{"t": "disconnect"}],
+        [{"t": "publish", "q": 1, "id": 9, "topic": "t", "plen": 1}],
+    ]
+    if ver == 5:
+        t.append([{"t": "auth", "rc": 0}])
+        t.append([{"t": "disconnect", "rc": 4, "sei": 10}])
+    return t
+
+
+def c16_decode_for(ver, role):
+    tmpl = c16_templates(ver)
+
+    def dec(tokens, variant):
+        cfg = dict(role=role, ver=ver, gate_pub=0, gate_proto=0, max_qos=2, max_receive=16)
+        cmds = []
+        if variant != "nohs":
+            cmds.append(handshake(role, ver))
+        if variant == "busy":
+            cmds += [{"c": "gate", "what": "pub", "on": 1},
+                     {"c": "in", "p": {"t": "publish", "q": 1, "id": 9, "topic": "t", "plen": 1}},
+                     {"c": "gate", "what": "pub", "on": 0},
+                     {"c": "send", "s": 1, "k": "q1", "id": 0}, {"c": "poll", "s": 1},
+                     {"c": "send", "s": 2, "k": "q2", "id": 0}, {"c": "poll", "s": 2}]
+            if role == "client":
+                cmds += [{"c": "send", "s": 3, "k": "sub", "id": 0}, {"c": "poll", "s": 3}]
+            cmds += [{"c": "send", "s": 4, "k": "stream1", "id": 0, "plen": 6}, {"c": "poll", "s": 4},
+                     {"c": "chunk", "s": 4, "n": 2}]
+        for t in tokens:
+            for p in tmpl[t - 1]:
+                cmds.append({"c": "in", "p": p})
+        cmds.append({"c": "drain"})
+        return cfg, cmds
+    return dec
+
+
+def c16_configs(tier):
+    cs = []
+    for ver in (3, 5):
+        nt = len(c16_templates(ver))
+        for role in ("server", "client"):
+            if tier == "quick":
+                cs.append((f"v{ver}{role[0]}_l2", PKTSEQ_CFG.format(nt=nt, maxlen=2, minlen=1), "PktSeq",
+                           c16_decode_for(ver, role), ["idle", "busy", "nohs"]))
+                cs.append((f"v{ver}{role[0]}_l3", PKTSEQ_CFG.format(nt=nt, maxlen=3, minlen=3), "PktSeq",
+                           c16_decode_for(ver, role), ["idle", "busy"]))
+            else:
+                cs.append((f"v{ver}{role[0]}_l3", PKTSEQ_CFG.format(nt=nt, maxlen=3, minlen=1), "PktSeq",
+                           c16_decode_for(ver, role), ["idle", "busy", "nohs"]))
+    return cs
+
+
+def c16_random(tier, rnd):
+    runs = []
+    for _ in range(200 if tier == "quick" else 3000):
+        ver = rnd.choice([3, 5])
+        role = rnd.choice(["server", "client"])
+        nt = len(c16_templates(ver))
+        toks = [rnd.randint(1, nt) for _ in range(rnd.randint(4, 8))]
+        cfg, cmds = c16_decode_for(ver, role)(toks, rnd.choice(["idle", "busy"]))
+        runs.append(dict(cfg=cfg, cmds=cmds, src="random"))
+    return runs
+
+
+reg(dict(
+    name="pktseq", judge="ProtoJudge", configs=c16_configs, extra_runs=c16_random, signature=inb_signature,
+    level={}, quota=700, quota_thorough=40000,
+    rule="TLC enumerates every sequence of <= 3 packet templates (23 for v3, 25 for v5: every packet type incl. the "
+         "ones the role must not receive, ids {1,2,9}, QoS 0-2, streamed PUBLISH + chunk, duplicate-id streamed PUBLISH, "
+         "every ack kind); each sequence is run after the handshake against idle and busy application state and "
+         "instead of the handshake; random sequences of length 4-8; judged by ProtoMon (panic, hang at final)",
+    assumptions=[
+        "the generator is a plain enumeration spec (PktSeq.tla); the expected outcome is the monitor, there is no implementation-shaped model of all 25 packet types",
+        "busy state = one gated publish handler, outstanding QoS 1 / QoS 2 (client: subscribe) sends and a streamed send in progress",
+        "hang = bytes left unread by a live connection after every gate was opened (`final`)",
+    ]), ["C16"])
